@@ -36,7 +36,8 @@ type c20Case struct {
 func c20Module() *dm.Module {
 	m := fuzzModule()
 	m.Extra = "typedef td { type int32 { range \"0..100\"; } default 7; units u; } grouping g { leaf gl { type td; } container gc { leaf x { type string; } } } " +
-		"container used { uses g { refine gl { description \"r\"; } } } augment \"/used\" { leaf aug { type string; } } feature f; "
+		"container used { uses g { refine gl { description \"r\"; } } } augment \"/used\" { leaf aug { type string; } } feature f; " +
+		"augment \"/c/ch\" { case augcase { leaf augleaf { type string; } } } "
 	return m
 }
 
@@ -92,6 +93,14 @@ func c20RunOps(mm *meta.Module, ops []c20Op) []string {
 			}
 		case "json":
 			add(nodeutil.WriteJSON(b.Root()))
+		case "json-node":
+			// the same data held by a slice-backed nodeutil.Node (its own case detection and key lookup)
+			ns, err := dm.NewStore("node-slice", root, fuzzData())
+			if err != nil {
+				add("", err)
+				continue
+			}
+			add(nodeutil.WriteJSON(node.NewBrowser(mm, ns.Node()).Root()))
 		case "xml":
 			add(nodeutil.WriteXMLDoc(b.Root(), false))
 		case "constrain":
@@ -124,12 +133,22 @@ func c20Run(c c20Case, o *hx.Obs) {
 	if c.Procs > 0 {
 		defer runtime.GOMAXPROCS(runtime.GOMAXPROCS(c.Procs))
 	}
-	mm, err := parser.LoadModuleFromString(nil, c20Yang())
-	if err != nil {
-		o.Failf("harness|schema-rejected", "%v\n%s", err, c20Yang())
+	// three instances of the same module: one never used (the reference dump), one used sequentially (what each worker
+	// obtains alone), and a fresh one per repetition that the workers share - fresh, so that anything the library
+	// initialises lazily on first use is initialised under concurrency
+	load := func() *meta.Module {
+		m, err := parser.LoadModuleFromString(nil, c20Yang())
+		if err != nil {
+			o.Failf("harness|schema-rejected", "%v\n%s", err, c20Yang())
+			return nil
+		}
+		return m
+	}
+	pristine, alone := load(), load()
+	if pristine == nil || alone == nil {
 		return
 	}
-	before, _ := ydump.Module(mm)
+	before, _ := ydump.Module(pristine)
 	beforeFlat := ydump.Flatten(before)
 	loaders := 0
 	for _, w := range c.Workers {
@@ -147,13 +166,17 @@ func c20Run(c c20Case, o *hx.Obs) {
 	// what each worker obtains when run alone
 	want := make([][]string, len(c.Workers))
 	for i, w := range c.Workers {
-		want[i] = c20RunOps(mm, w)
+		want[i] = c20RunOps(alone, w)
 	}
 	rep := c.Repeat
 	if rep < 1 {
 		rep = 1
 	}
 	for r := 0; r < rep; r++ {
+		mm := load()
+		if mm == nil {
+			return
+		}
 		got := make([][]string, len(c.Workers))
 		var wg sync.WaitGroup
 		start := make(chan struct{})
@@ -191,17 +214,18 @@ func c20Run(c c20Case, o *hx.Obs) {
 				}
 			}
 		}
-	}
-	after, _ := ydump.Module(mm)
-	afterFlat := ydump.Flatten(after)
-	for k, v := range beforeFlat {
-		if afterFlat[k] != v {
-			o.Failf("mutated-schema|"+lastSeg(k), "using the compiled module changed it: %s was %q, is %q", k, v, afterFlat[k])
+		after, _ := ydump.Module(mm)
+		afterFlat := ydump.Flatten(after)
+		for k, v := range beforeFlat {
+			if afterFlat[k] != v {
+				o.Failf("mutated-schema|"+lastSeg(k), "using the compiled module changed it: %s was %q, is %q", k, v, afterFlat[k])
+				return
+			}
+		}
+		if len(afterFlat) != len(beforeFlat) {
+			o.Failf("mutated-schema|size", "using the compiled module changed it: %d dump entries before, %d after", len(beforeFlat), len(afterFlat))
 			return
 		}
-	}
-	if len(afterFlat) != len(beforeFlat) {
-		o.Failf("mutated-schema|size", "using the compiled module changed it: %d dump entries before, %d after", len(beforeFlat), len(afterFlat))
 	}
 }
 
@@ -220,7 +244,7 @@ func c20Gen(t *rapid.T) c20Case {
 		var ops []c20Op
 		n := rapid.IntRange(1, 5).Draw(t, "nops")
 		for j := 0; j < n; j++ {
-			kind := rapid.SampledFrom([]string{"load", "export", "upsert", "find", "json", "xml", "constrain", "setvalue", "delete", "load", "constrain"}).Draw(t, "kind")
+			kind := rapid.SampledFrom([]string{"load", "export", "upsert", "find", "json", "json-node", "xml", "constrain", "setvalue", "delete", "load", "constrain"}).Draw(t, "kind")
 			op := c20Op{Kind: kind}
 			switch kind {
 			case "upsert":
@@ -244,7 +268,7 @@ func c20Gen(t *rapid.T) c20Case {
 var c20Shared = hx.Register(&hx.Check[c20Case]{
 	Name:    "c20-shared-schema",
 	Journal: true,
-	Rule:    "2-8 goroutines, each with its own reference store, run 1-5 operations {load the module text (groupings, uses, refine, augment, typedefs), export, upsert from JSON, Find with and without query parameters, JSON write, XML write, Constrain + read, SetValue, Delete} against one shared compiled module, under GOMAXPROCS 1/2/4/16, each workload twice; built with -race (halt on first report); every goroutine's results must equal what the same list yields alone and the module's accessor dump must be unchanged; non-trivial = at least one loader or constrained read among >= 2 goroutines",
+	Rule:    "2-8 goroutines, each with its own reference store, run 1-5 operations {load the module text (groupings, uses, refine, augments also into a choice, typedefs), export, upsert from JSON, Find with and without query parameters, JSON write (also of a slice-backed nodeutil.Node), XML write, Constrain + read, SetValue, Delete} against one shared compiled module that is freshly loaded for every repetition (so that lazily initialised state is first touched concurrently), under GOMAXPROCS 1/2/4/16, each workload twice; built with -race (halt on first report); every goroutine's results must equal what the same list yields alone and the module's accessor dump must be unchanged; non-trivial = at least one loader or constrained read among >= 2 goroutines",
 	Gen:     c20Gen,
 	Run:     c20Run,
 })
@@ -252,5 +276,6 @@ var c20Shared = hx.Register(&hx.Check[c20Case]{
 func TestC20(t *testing.T) {
 	s := hx.Begin(t, "C20")
 	defer s.End()
+	hx.Run(s, c20Cold, s.N(3, 6)) // first: only the first case of a process is cold
 	hx.Run(s, c20Shared, s.N(150, 1200))
 }
